@@ -120,8 +120,8 @@ PROPS = {
     },
     "C08": {
         "streams": ["bundle"],
-        "theorems": "C08_build_is_closure (work-list soundness + completeness + cache consistency for all worlds, Add sequences and fuel, by invariants over step/drain/run_ops), C08_registry_resolution_is_cache_independent, C08_relative_inside_package, C08_metadata_retrievable (every run: the metadata table holds for each fetched package exactly what the fetcher returned with it, nothing lost or invented)",
-        "assumptions": _BUILDER_ASSUME + ["path lookups of the finished bundle (LocalPathFor*) are checked on the implementation by the oracle against a reference closure computed independently in Go; their model is the subject of C18"],
+        "theorems": "C08_build_is_closure (work-list soundness + completeness + cache consistency for all worlds, Add sequences and fuel, by invariants over step/drain/run_ops), C08_registry_resolution_is_cache_independent, C08_relative_inside_package, C08_closed_bundle_lookups (end to end on the models: after an error-free build, the document Close writes for the builder's package table is accepted by OpenDir and the bundle it returns looks up every added or discovered source - transitively - at <root>/<directory of the package's content>/<sub-path>; hypotheses: package strings are printed forms of address values (C06), directory names are plain names; Bundle/ClosedBundle.v), C08_metadata_retrievable (every run: the metadata table holds for each fetched package exactly what the fetcher returned with it, nothing lost or invented)",
+        "assumptions": _BUILDER_ASSUME + ["path lookups of the finished bundle: C08_closed_bundle_lookups composes the builder model with the manifest and lookup models (C09, C18); on the implementation they are also checked by the oracle against a reference closure computed independently in Go"],
     },
     "C13": {
         "streams": ["bundle"],
